@@ -381,6 +381,9 @@ def capacity_proved(body, blk, call):
         return "pushes onto a batch created empty in this function, outside any loop"
     lenrx = re.compile(r"message::FrameBatch::len\(%s\)" % re.escape(base))
     for g in body.guards(blk, select_aware=False):
+        if g.atom[0] == "call" and g.truth is True and g.atom[1].callee == "message::FrameBatch::is_empty" and g.atom[1].args and call.name in ("push", "insert") \
+                and body.provenance_u(g.atom[1].args[0]) == base and not any(body.dominates(g.s, h) for h, _ in body.loops_containing(blk) if h != g.s and not body.dominates(h, g.s)):
+            return "the batch is empty on this edge (is_empty() == true, bb%d)" % g.s
         if g.atom[0] != "cmp" or g.truth is None:
             continue
         op = g.atom[1]
